@@ -433,32 +433,47 @@ ROT3 = [OMIT] + VEC3
 CENTER = VEC3 + ["None"]
 LENSANG = ["0.75", "1/3", "f64", "f32", "int1"]
 
-# labels dropped in the quick tier (one representative of each representer /
-# constructor branch is kept)
-QUICK_DROP = {
-    "1/3", "1e300", "i32", "P:U-int", "P:U-inf", "P:G-named", "P:BG-open",
-    "P:mul", "P:sub", "P:neg", "P:div", "P:rpow", "P:addP", "P:max",
-    "P:exp-named", "P:chain", "P:CP2", "V3:ints", "V3:np", "V3:arr-f32",
-    "V3:arr-int", "V3:tuple-priors", "V3:objarr", "V2:ints", "V2:np",
-    "V2:arr-f32", "V2:arr-int", "V2:tuple-priors", "V2:objarr", "V2:ext",
-    "N2:ints", "N2:np", "N2:arr-f32", "N2:arr-int", "N2:tuple-priors",
-    "N2:objarr", "N2:ext", "N2:arr-c128", "N2:cprior", "str:odd", "str:num",
-    "npTrue", "npFalse", "int0", "wip:tuple", "str:mpi", "D:full", "D:f32",
-    "D:tols-np", "L:one", "L:same-twice", "L:overlap", "L:single",
-    "S:b-near", "S:a-nNone", "T:Multisphere-opts", "T:Lens-Lens",
-    "BP:pair-rev", "BP:pair-np", "BP:pair-tuple", "BP:tuple1", "Tr:pow",
-    "F:calc_field", "f64-lo", "f64-hi", "B:arr", "F:tuple2",
-    "O:red-green-np", "O:pol-arr", "O:xr-prior", "C:two",
-    "M:sphere-tuple", "M:sphere-named", "M:layered", "M:spheroid",
-}
+# label levels.  Every label of an argument's alphabet is explored in the
+# single-deviation sweep of that argument (both tiers).  Vectors with two or
+# more deviations draw from the quick core (QSET) in the quick tier and from
+# QSET | TSET in the thorough tier; one representative of each representer /
+# constructor branch is in QSET.
+QSET = set("""
+0.5 1e-300 -0.0 int2 int0 int1 int7 int40 1.5 0.25 0.75 f64 f32 i64 f32-lo
+f32-hi inf -inf None True False cplx c128 str:par str:auto
+P:U P:G P:BG P:CP P:add P:sqrt
+V3:list V3:tuple V3:arr V3:f32 V3:priors V2:list V2:tuple V2:arr V2:f32
+V2:priors N2:list N2:tuple N2:arr N2:f32 N2:priors N2:cplx N2:c128
+wip:arr wip:list D:empty D:quad D:np D:tols
+S:a S:b S:a-tuple S:a-cplx S:b-cplx S:ell L:two L:empty L:tuple L:nested
+L:layered L:priors Sp:two Sp:priors Sp:tuple
+T:Mie T:Mie-opts T:Multisphere T:Tmatrix T:MieLens T:MieLens-prior
+T:Lens-Mie T:Mie-class
+F:unit_ball F:list1 F:list2 F:indicators B:unit B:tuple F:weights
+F:next-dist F:calc_holo F:calc_intensity Tr:add Tr:exp Tr:maximum Tr:custom
+BP:single BP:list1 BP:pair BP:pair-priors BP:pair-f32 BP:nested BP:shared
+M:sphere M:sphere-fixed M:sphere-cplx M:sphere-derived M:spheres
+M:spheres-shared O:red-green O:red-green-prior O:pol-dict O:pol-list
+O:pol-tuple O:list2 O:xr C:limit C:limit-list C:empty
+none tie1 tie2
+""".split())
+TSET = set("""
+1/3 1e300 f64-lo f64-hi npTrue npFalse str:odd
+P:U-named P:rdiv P:max P:sq-shared P:CP2
+V3:shared V3:ext V2:shared V2:ext N2:shared N2:ext N2:cprior
+D:f32 D:full D:tols-np S:b-near S:a-nNone L:mixed L:same-twice Sp:three
+T:Multisphere-opts T:AberratedMieLens-prior T:Lens-Lens
+F:tuple2 B:arr F:calc_field Tr:pow BP:tuple1 BP:pair-tuple BP:pair-np
+M:sphere-named M:sphere-tuple M:layered M:spheroid
+O:red-green-np O:pol-arr O:xr-prior C:two
+""".split())
 
 _ROD = {"n": ["1.5"] + CPLX + ["f32", "P:U", "P:CP", "None"],
         "h": ["int2", "0.5", "f64", "f32", "P:U", "P:sqrt", "None"],
         "d": ["0.5", "int2", "1e-300", "i64", "f32", "P:G", "P:add", "None"],
         "center": CENTER, "rotation": ROT3}
-_CSG = {"s1": ["S:a", "S:a-tuple", "S:ell", "S:a-cplx", "S:a-nNone",
-               "S:union", "S:prior"],
-        "s2": ["S:b", "S:b-near", "S:ell", "S:b-cplx", "S:union"]}
+_CSG = {"s1": ["S:a", "S:a-tuple", "S:ell", "S:a-cplx", "S:a-nNone"],
+        "s2": ["S:b", "S:b-near", "S:ell", "S:b-cplx"]}
 
 TABLE = {
     # ---- scatterers ------------------------------------------------------
@@ -706,9 +721,6 @@ def class_axes(clsname, cls, tier):
                 return None, ("required argument %r has no alphabet in the "
                               "hand-written table" % name)
             labels = [OMIT] + (["None"] if default is None else [])
-        if tier == "quick":
-            labels = [labels[0]] + [x for x in labels[1:]
-                                    if x not in QUICK_DROP]
         seen, uniq = set(), []
         for x in labels:
             if x not in seen:
@@ -720,18 +732,30 @@ def class_axes(clsname, cls, tier):
     return axes, None
 
 
+def _level(tier, clsname, d):
+    """labels admitted in vectors with d >= 2 deviations"""
+    if tier == "quick":
+        return QSET
+    if clsname in MODEL_CLASSES and d >= 3:
+        return QSET
+    return QSET | TSET
+
+
 def _vectors(clsname, axes, tier):
-    """blocks of vectors: [(dev tuple, [vec dict, ...])], removed count"""
+    """-> ([(dev tuple, [vec dict, ...])], removed by side-conditions, D)"""
     names = list(axes)
     n = len(names)
-    wide = n > 3
-    D = n if not wide else (2 if tier == "quick" else 3)
-    if clsname in MODEL_CLASSES:
-        D = 2 if tier == "quick" else 3
+    D = n if n <= 3 else (2 if tier == "quick" else 3)
     blocks, removed = [], 0
     for d in range(0, min(D, n) + 1):
         for which in itertools.combinations(range(n), d):
-            alts = [axes[names[i]][1:] for i in which]
+            alts = []
+            for i in which:
+                labs = axes[names[i]][1:]
+                if d >= 2:
+                    lvl = _level(tier, clsname, d)
+                    labs = [x for x in labs if x in lvl]
+                alts.append(labs)
             if any(len(a) == 0 for a in alts):
                 continue
             vs = []
@@ -756,15 +780,23 @@ def cases(tier, seed):
         if axes is None:
             continue
         blocks, _, _ = _vectors(clsname, axes, tier)
-        maxblock = MAXBLOCK if clsname not in MODEL_CLASSES else 12
+        model = clsname in MODEL_CLASSES
         for dev, vs in blocks:
+            d = len(dev)
+            # vectors with <= 1 deviation are the same in both tiers: their
+            # case ids carry no tier mark
+            mark = "" if d <= 1 else tier[0]
+            maxblock = (6 if model else 12) if d <= 1 else \
+                (16 if model else MAXBLOCK)
             for k in range(0, len(vs), maxblock):
                 chunk = vs[k:k + maxblock]
-                cid = "obj:%s|dev=%s|%d" % (clsname, ",".join(dev) or "-",
-                                            k // maxblock)
+                mixed = [d == 0 or (d == 1 and v[dev[0]] in QSET)
+                         for v in chunk]
+                cid = "obj:%s|dev=%s|%s%d" % (clsname, ",".join(dev) or "-",
+                                              mark, k // maxblock)
                 out.append({"id": cid, "kind": "obj", "cls": clsname,
                             "dev": list(dev), "vectors": chunk,
-                            "mixed": len(dev) <= 1})
+                            "mixed": mixed, "tier": tier})
     return out
 
 
@@ -1052,6 +1084,7 @@ class _Findings:
 
     def __init__(self):
         self.items = {}
+        self.notes = {}
 
     def add(self, check, key, detail, where):
         it = self.items.setdefault((check, key), {"detail": detail,
@@ -1095,12 +1128,9 @@ def _compare(fs, ref, obs, where, plain, eq_result):
         fs.add("derived-behaviour", "%r->%r" % (ref["beh"], obs["beh"]),
                "behaviour probe: original %r, reloaded %r" %
                (ref["beh"], obs["beh"]), where)
-    if ref["sharing"] != obs["sharing"] and \
-            len(ref["sharing"]) == len(obs["sharing"]):
-        fs.add("prior-sharing", "%r->%r" % (ref["sharing"], obs["sharing"]),
-               "places that held one and the same prior object: original "
-               "pattern %r, reloaded %r" % (ref["sharing"], obs["sharing"]),
-               where)
+    if ref["sharing"] != obs["sharing"]:
+        # not part of the property (equal values are enough): counted only
+        fs.notes["prior-sharing-lost"] = 1
     if plain and eq_result is not True:
         fs.add("library-eq", repr(eq_result),
                "all arguments were lists/scalars but `loaded == original` "
@@ -1383,6 +1413,8 @@ def _check_object(ck, clsname, vec, mixed, tmpdir, stats, texts_fp):
             fs.add("original-untouched", "changed",
                    "saving changed the original object", "after all targets")
     stats["objects"] = stats.get("objects", 0) + 1
+    for k in fs.notes:
+        stats[k] = stats.get(k, 0) + 1
     stats["roundtrips"] = stats.get("roundtrips", 0) + counter[0]
     if plain:
         stats["plain"] = stats.get("plain", 0) + 1
@@ -1399,8 +1431,9 @@ def _run_obj(case, ck):
     tmpdir = tempfile.mkdtemp(prefix="c15_")
     agg = {}
     try:
-        for vec in case["vectors"]:
-            found, call = _check_object(ck, clsname, vec, case.get("mixed"),
+        flags = case.get("mixed") or [False] * len(case["vectors"])
+        for vec, mixed in zip(case["vectors"], flags):
+            found, call = _check_object(ck, clsname, vec, mixed,
                                         tmpdir, stats, texts_fp)
             for check, key, detail, where in found:
                 a = agg.setdefault((check, key), {"detail": detail,
@@ -1488,7 +1521,7 @@ def coverage_extra(cases, results):
     for c, r in zip(cases, results):
         st = (r or {}).get("stats") or {}
         for k in ("objects", "roundtrips", "refused", "not-constructible",
-                  "plain", "ok"):
+                  "plain", "ok", "prior-sharing-lost"):
             tot[k] = tot.get(k, 0) + int(st.get(k, 0))
         for k, v in (st.get("reasons") or {}).items():
             e = reasons.setdefault(k, {"count": 0, "first": v[0]})
@@ -1509,6 +1542,8 @@ def coverage_extra(cases, results):
             "vectors_not_constructible": tot.get("not-constructible", 0),
             "not_built": reasons,
             "vectors_removed_by_side_conditions": removed_total,
+            "noted_only_objects_whose_shared_prior_reloads_as_copies":
+                tot.get("prior-sharing-lost", 0),
             "targets": TARGETS, "cycles": [1, 2, 3],
             "mixed_target_sequences_per_base_object":
                 len(_mixed_sequences()),
